@@ -97,6 +97,7 @@ def run(ck):
     ck.gen_from_source()
     ck.coq_build(["props/C15.vo", "extract/C15_extract.vo"])
     ck.print_assumptions(["DSP.C15"], ["DSP.C15." + t for t in THEOREMS])
+    ck.source_tie("registry")
     ck.hygiene()
     ck.ocaml_build()
     ck.harness_build(["c15"])
@@ -359,4 +360,9 @@ def run(ck):
         "function sub-states are modelled as sets of names; the commands used by the harness itself (alias, unalias, "
         "remove_command, is_command_defined, fn, end, on_error) are outside the name pool",
         "String ordering is modelled as lexicographic order on scalar values (equal to UTF-8 byte order)",
+        "translation tie (props/SrcRegistry.v): the translator lib/rs2v.py (class FnM) + lib/gen/registry_gen.py is trusted to "
+        "render the Rust subset it accepts faithfully: HashMap contains_key/get/insert/remove as gmap lookup/insert/delete, "
+        "`for x in &vec` as a left-to-right fold with early return, HashMap::keys in std++ map_to_list order (sorted "
+        "afterwards; C15_names_sorted), a command as (name(), aliases()), the two `set` errors recognised by their format "
+        "strings; when it does not understand the source the tie is reported inactive and the correspondence run is the only tie",
     ]
